@@ -59,7 +59,7 @@ PROPS_PART = {
         level_note='Trusted: Verus/Z3, Kani/CBMC; prelude stand-ins for ArrayVec (incl. DerefMut, TryFrom<&[T]>), Name/Label/Labels accessors, str::as_ref, '
                    'u8::is_ascii(_digit), the body of unsafe new_boxed_name; rewrite rules R12, NB1, NB3. The Display (rendering) half and all Name-level '
                    'comparisons are bounded, not proved.',
-        verus=[dict(unit='name_builder', which='all'), dict(unit='name_text', which='all')],
+        verus=[dict(unit='name_builder', which='all'), dict(unit='name_text', which='all'), dict(unit='name_core', which='all'), dict(unit='name_core_bridge', which='all')],
         kani=[
             dict(harness='full_label_eq_is_ascii_ci', module='names', kind='complete', bound='labels <= 63 octets (type bound)', tier='quick', what='[C16.label_eq] Label::eq == same length and equal octets after folding A-Z'),
             dict(harness='full_label_hash_is_folded_octets', module='names', kind='complete', bound='labels <= 63 octets (type bound)', tier='quick', what='[C16.label_hash] hasher input == [len] ++ case-folded octets'),
